@@ -215,17 +215,29 @@ struct TopoMachine : Machine {
     if (prop == "C12") { al[10].w = 7; al[11].w = 1; al[12].w = 3; }
     if (prop == "C05") { al[11].w = 7; al[10].w = 1; al[12].w = 2; }
     if (prop == "C02") { al[10].w = 1; al[11].w = 1; al[12].w = 1; }
-    if (prop == "C01") al.clear();
-    for (auto &x : al) { std::string xk = x.k; if (cfg.chance(1, 3) && xk != "restrict" && xk != "dup" && xk != "xml_restart" && xk != "shm_adopt") x.w = 0; }
+    al.push_back({"xml_load_cfg", 0});   // 28
+    if (prop == "C02") al[28].w = 1;
+    if (prop == "C01") {   // half of the runs: load only; the others build a state first and load its XML export under seeded filters/flags
+      bool hist = root.sub(5).chance(1, 2);
+      for (auto &x : al) x.w = 0;
+      if (hist) { al[0].w = 3; al[1].w = 5; al[2].w = 3; al[4].w = 1; al[7].w = 1; al[13].w = 2; al[18].w = 1; al[21].w = 1; al[28].w = 8; }
+    }
+    for (auto &x : al) { std::string xk = x.k; if (cfg.chance(1, 3) && xk != "restrict" && xk != "dup" && xk != "xml_restart" && xk != "shm_adopt" && xk != "xml_load_cfg") x.w = 0; }
     int total = 0; for (auto &x : al) total += x.w;
-    int len = al.empty() ? 0 : (int)cfg.range(3, tier == "thorough" ? 40 : 25);
+    int len = al.empty() ? 0 : (int)cfg.range(3, prop == "C01" ? 10 : tier == "thorough" ? 40 : 25);
     for (int s = 0; s < len && total; s++) {
       int rr = (int)ops.below(total); const char *k = nullptr; for (auto &x : al) { if (rr < x.w) { k = x.k; break; } rr -= x.w; }
       Op o(k); o.set("r", (int64_t)ops.below(4));
       std::string ks = k;
-      if (ks != "dup" && ks != "xml_restart" && ks != "destroy" && ks != "shm_adopt" && ks != "battery" && ks != "xml_fault" && ks != "diffxml_fault" && ops.chance(1, 2)) o.set("both", 1);
+      if (ks != "dup" && ks != "xml_restart" && ks != "destroy" && ks != "shm_adopt" && ks != "battery" && ks != "xml_fault" && ks != "diffxml_fault" && ks != "xml_load_cfg" && ops.chance(1, 2)) o.set("both", 1);
       if (ks == "xml_fault") o.set("src", (int64_t)ops.below(4)).set("file", (int64_t)ops.below(100)).setu("fs", ops.next()).set("nf", ops.chance(2, 3) ? 0 : (int64_t)ops.below(3)).set("via", (int64_t)ops.below(2)).set("sz", ops.chance(1, 2) ? 0 : (int64_t)ops.below(4)).set("filt", (int64_t)ops.below(8)).set("again", (int64_t)ops.below(2));
       if (ks == "diffxml_fault") o.setu("fs", ops.next()).set("nf", (int64_t)ops.below(2));
+      if (ks == "xml_load_cfg") {
+        std::string f(HWLOC_OBJ_TYPE_MAX, '-'); int fm = (int)ops.below(5);
+        for (int ty = 0; ty < HWLOC_OBJ_TYPE_MAX; ty++) { if (fm == 1) f[ty] = '0'; else if (fm == 2) f[ty] = '2'; else if (fm == 3) f[ty] = (char)('0' + ops.below(4)); else if (fm == 4 && ops.chance(1, 4)) f[ty] = (char)('0' + ops.below(4)); }
+        if (ops.chance(1, 2)) f[HWLOC_OBJ_MISC] = '0';
+        o.set("via", (int64_t)ops.below(2)).set("v2", (int64_t)ops.below(8)).sets("filt", "f" + f).setu("flags", ops.chance(1, 2) ? 0 : ops.next());
+      }
       if (ks == "battery") o.setu("qs", ops.next()).set("nq", (int64_t)ops.below(40));
       if (ks == "shm_adopt") o.set("off", (int64_t)ops.below(4)).set("fault", (int64_t)ops.below(9)).set("hb", (int64_t)ops.below(1000));
       if (ks.rfind("dist_", 0) == 0 || ks.rfind("mem_", 0) == 0 || ks.rfind("kind_", 0) == 0) o.set("obs", (int64_t)ops.below(2));
@@ -311,7 +323,7 @@ struct TopoMachine : Machine {
     int idx = 0;
     for (const Op &o : p.ops) {
       r.curop = o.kind; r.curopidx = idx++; r.nops++; steps_reset();
-      bool repl_op = o.kind == "dup" || o.kind == "xml_restart" || o.kind == "destroy" || o.kind == "shm_adopt";
+      bool repl_op = o.kind == "dup" || o.kind == "xml_restart" || o.kind == "destroy" || o.kind == "shm_adopt" || o.kind == "xml_load_cfg";
       if (o.kind == "battery") { int bi = w.pick(o.u("r")); if (bi >= 0) { Replica &BR = w.r[bi]; if (!BR.last.ok) observe(w, bi, ""); battery(w, bi, o.u("qs"), (int)(o.u("nq") % 40) + 5); r.ev("battery r%d", bi); } continue; }
       if (o.kind == "xml_fault" || o.kind == "diffxml_fault") { ops_xmlfault(w, o); continue; }
       if (o.kind == "snap_load" || o.kind == "snap_enum") { ops_snapshot(w, o); continue; }
